@@ -87,7 +87,7 @@ def check_C10(res, tier, seed, replay):
         nfile = 0
         allfiles = [(f, True) for f in files] + [(f, False) for f in files[::3]]
         nr = 400 if tier == 'quick' else 6000
-        allfiles += [(random_file(rng, rng.randint(1, 9), rng.randint(0, 12)), False) for _ in range(nr)]
+        allfiles += [(random_file(rng, rng.choice([1, 2, 3, 5, 9, 10, 12, 25, 120]), rng.randint(0, 12)), False) for _ in range(nr)]
         for f, plain in allfiles:
             path = os.path.join(fdir, 'f%d.dimacs' % nfile)
             nfile += 1
